@@ -692,6 +692,43 @@ def r07f(ctx, run):
     c12.noeval_law(ctx, run, clauses=("wrapped",))
 
 
+def r07k(ctx, run):
+    """a slice made from an array refers to the array's own memory: the conversion is only sound when the elements already have the representation of
+    the slice's elements.  For every pair of scalar element types, `[N]a -> []b` (array literal or named array) accepted by can_fit_into implies that
+    `a` is retyped to `b` (weak literal elements, is_weak_replaceable_by) or is the same representation (is_functionally_equivalent_to) - otherwise the
+    code generator hands out a pointer to elements of another width (`s : []u64 = .[x, y]` with x, y : u8 printed 513)."""
+    import c12
+    from absint import Variant, Panic, CannotEstablish
+    w = c12.World(ctx)
+    f = w.fns["can_fit_into"]
+    sc = c12.scalars()
+    n = 0
+    for kind in ("AnonArray", "ConcreteArray"):
+        for an, a in sc.items():
+            for bn, b in sc.items():
+                if bn.startswith("{"):
+                    continue    # a slice's declared element type is never a weak literal type
+                A, B = Variant("Ty::" + kind, {"size": 2, "sub_ty": a}), Variant("Ty::Slice", {"sub_ty": b})
+                key = "array-to-slice:%s:%s->%s" % (kind, an, bn)
+                try:
+                    acc = w.call("can_fit_into", A, [B])
+                    if acc is not True:
+                        n += 1
+                        continue
+                    same = w.call("is_functionally_equivalent_to", a, [b, False]) is True
+                    weak = w.call("is_weak_replaceable_by", a, [b]) is True
+                except (Panic, CannotEstablish) as c:
+                    run.finding("Ty::can_fit_into", key, f.file, f.ln, "cannot establish whether %s of %s is accepted as a slice of %s: %s" % (kind, an, bn, getattr(c, "what", c)))
+                    continue
+                n += 1
+                if not (same or weak):
+                    run.finding("Ty::can_fit_into", key, f.file, f.ln,
+                                "%s of %s is accepted where a slice of %s is expected, but the elements are neither retyped (not weak) nor of the same representation: the slice "
+                                "points at the array's %s elements and reads them as %s" % ("an array literal" if kind == "AnonArray" else "an array", an, bn, an, bn))
+    run.check(n >= 400, f.site(), "array -> slice: %d element pairs: accepted only when the elements are retyped or share the representation" % n, "Ty::can_fit_into", "array-to-slice-evaluated",
+              f.file, f.ln, "only %d array -> slice pairs could be evaluated" % n)
+
+
 def rules(ctx):
     return [
         Rule("R07.a", "the error gate (both diagnostic sources, exit 1) and the unsafe assert dominate every code-generation call; comptime evaluation is guarded", 12, r07a),
@@ -699,6 +736,7 @@ def rules(ctx):
         Rule("R07.d", "operator/type combinations the checker accepts are ones the code generator has an arm for (belief vs use, across crates)", 80, r07d),
         Rule("R07.e", "every path that finishes a global's body passes the GlobalNotConst test (must-pass-through on MIR)", 1, r07e),
         Rule("R07.h", "every cast Ty::can_cast_to accepts is one cast_into_memory can build (both evaluated from source over 31 x 30 type pairs)", 100, r07h),
+        Rule("R07.k", "array -> slice is accepted only when the element representation is kept (the slice aliases the array's memory)", 1, r07k),
         Rule("R07.i", "== / != on aggregates: every component type the comparison recurses into has a code-generator arm (checker and generator evaluated one level deep)", 60, r07i),
         Rule("R07.j", "nested bodies (lambda, comptime) set the enclosing params, scopes and labels aside: a jump to an outer label is reported, not compiled (shared with C05 R05.d)", 4, r07j),
         Rule("R07.g", "get_const's classification per expression kind: Unknown (= stay silent) only where an error was already reported (shared with C15 R15.b)", 60, r07g),
